@@ -286,6 +286,68 @@ func c13exec(c *h.Ctx, cs *h.Case) {
 		objs = append(objs, o)
 		cs.Impl = append(cs.Impl, id)
 	}
+	// aliasCheck: a roster's id must stay the id of its list whatever the caller does afterwards with the
+	// slice it handed to NewRoster, and whatever other rosters are derived from it (round 5: a roster
+	// that shares its list with the caller's slice or with a sibling made by Concat carries a stale id)
+	aliasCheck := func(ro *onet.Roster, how string) {
+		if ro == nil || len(ro.List) == 0 {
+			return
+		}
+		used := map[int]bool{}
+		for _, m := range members {
+			for _, k := range m {
+				used[k] = true
+			}
+		}
+		var free []int
+		for k := range keys {
+			if !used[k] && keys[k].kind == rosterKind {
+				free = append(free, k)
+			}
+		}
+		sort.Ints(free)
+		stale := func(r *onet.Roster) bool {
+			g, err := r.GetID()
+			return err != nil || !g.Equal(r.ID)
+		}
+		n := len(ro.List)
+		// (1) the caller's slice, with spare capacity, changed after the call
+		ids := make([]*network.ServerIdentity, n, n+3)
+		copy(ids, ro.List)
+		r2 := onet.NewRoster(ids)
+		first := ro.List[0]
+		if n >= 2 && !ids[0].Public.Equal(ids[n-1].Public) {
+			ids[0], ids[n-1] = ids[n-1], ids[0]
+		} else if len(free) > 0 {
+			ids[0] = mkSI([]int{free[0]}, 300)
+		}
+		if len(free) > 0 {
+			ids = append(ids, mkSI([]int{free[0]}, 301))
+		}
+		_ = ids
+		if r2 == nil || !r2.ID.Equal(ro.ID) || stale(r2) || r2.List[0] != first || len(r2.List) != n {
+			cs.Fail("roster-id-stale:list-shared-with-caller", "after "+how+": a roster made by NewRoster changed (or its id no longer is the id of its list) when the caller changed the slice it had passed")
+			return
+		}
+		// (2) siblings: two rosters derived from one roster by Concat
+		if len(free) >= 2 {
+			a, b := mkSI([]int{free[0]}, 302), mkSI([]int{free[1]}, 303)
+			s1 := ro.Concat(a)
+			s2 := ro.Concat(b)
+			s3 := s1.Concat(b)
+			s4 := s1.Concat(a, mkSI([]int{free[1]}, 304))
+			for _, x := range []struct {
+				r    *onet.Roster
+				last *network.ServerIdentity
+				n    int
+			}{{s1, a, n + 1}, {s2, b, n + 1}, {s3, b, n + 2}, {s4, nil, n + 2}, {ro, nil, n}} {
+				if x.r == nil || len(x.r.List) != x.n || stale(x.r) || (x.last != nil && x.r.List[x.n-1] != x.last) {
+					cs.Fail("roster-id-stale:sibling-concat", "after "+how+": rosters derived from one roster by Concat share their lists — a later Concat changed a member of an earlier result (or its id is not the id of its list)")
+					return
+				}
+			}
+		}
+	}
 	// adopt: the members of a roster the code derived from the current one
 	adopt := func(res *onet.Roster, extra map[*network.ServerIdentity][]int) bool {
 		var ms [][]int
@@ -379,6 +441,7 @@ func c13exec(c *h.Ctx, cs *h.Case) {
 				continue
 			}
 			recordRoster("roster")
+			aliasCheck(roster, "NewRoster")
 		case "concat":
 			ms, ok := parseMembers(tk[2:])
 			if !ok || roster == nil || !oneKind(ms, rosterKind) {
@@ -399,6 +462,7 @@ func c13exec(c *h.Ctx, cs *h.Case) {
 				continue
 			}
 			recordRoster("Concat")
+			aliasCheck(roster, "Concat")
 		case "withroot":
 			if len(tk) != 3 || roster == nil {
 				bad()
